@@ -275,5 +275,9 @@ def run(repo: Repo, rep: Report, tier: str) -> None:
     from .memo import memo_rule
 
     memo_rule(repo, rep, "C14.R7")
+    from .c18 import commit_rule
+
+    commit_rule(repo, rep, "C14.R8")
+
 
 
